@@ -556,11 +556,12 @@ func TestModifiedRuleKeepsStatistics(t *testing.T) {
 			thr := rapid.IntRange(2, 4).Draw(t, "thr")
 			r := &cb.Rule{Id: "r", Resource: "a", Strategy: cb.ErrorCount, RetryTimeoutMs: 100, MinRequestAmount: 1, StatIntervalMs: 5000, Threshold: float64(thr)}
 			cb.LoadRules([]*cb.Rule{r})
-			k := rapid.IntRange(1, thr-1).Draw(t, "k")
+			k := rapid.IntRange(1, thr).Draw(t, "k") // k == thr: the breaker has tripped (open) when the rule is modified
 			for i := 0; i < k; i++ {
 				e, _ := sentinel.Entry("a")
 				e.Exit(base.WithError(errors.New("x")))
 			}
+			c.ClassIf(k == thr, "modified-while-open")
 			thr2 := rapid.IntRange(1, 6).Draw(t, "thr2")
 			if thr2 == thr {
 				thr2++
